@@ -231,6 +231,9 @@ func (h *Hook) OnSubscribed(cl *mqtt.Client, pk packets.Packet, reasonCodes []by
 
 	var in *storage.Subscription
 	for i := 0; i < len(pk.Filters); i++ {
+		if reasonCodes[i] >= packets.ErrUnspecifiedError.Code {
+			continue // the subscription was refused: nothing to restore
+		}
 		in = &storage.Subscription{
 			ID:                subscriptionKey(cl, pk.Filters[i].Filter),
 			T:                 storage.SubscriptionKey,
